@@ -179,6 +179,19 @@ func PropC14(c *vs.Case, f Factory, kind string) error {
 	}
 	env.W.SyncAll()
 	env.W.Queue.Take()
+	if c.Prob(1, 3) {
+		// some parents failed their last sync: their keys sit in the rate limiter (NumRequeues > 0) waiting
+		// for the retry. Events about them must be queued all the same - the retry works on older state.
+		for _, p := range w.parents {
+			if c.Bool() {
+				for i := 0; i <= c.Int(3); i++ {
+					env.W.Queue.AddRateLimited(env.Ctl.KeyFor(p))
+				}
+			}
+		}
+		env.W.Queue.Take()
+		c.Class("parents-in-back-off")
+	}
 	var log []string
 	c.Describe(func() any { return map[string]any{"scenario": scn, "parents": w.parents, "events": log} })
 	pd := env.W.Sim.Def(scn.Cfg.ParentResource)
